@@ -1010,7 +1010,7 @@ func (e *Env) applySpec(sf *SpecFunc, args []tval) (tval, error) {
 				nm, ok := vc.macroNames[r.C[0]]
 				if !ok {
 					nm = vc.fresh(sf.Name, lay[0])
-					vc.emit("(assert (= " + nm + " " + r.C[0] + "))")
+					vc.assert(sEq(nm, r.C[0]))
 					vc.macroNames[r.C[0]] = nm
 				}
 				r.C = []string{nm}
